@@ -459,3 +459,23 @@ def mutating_calls(func):
         ):
             out.append((n.func.value, n, n.func.attr))
     return out
+
+
+def deref(fl, e, at, depth=4):
+    """Look through temporaries: while e is a local name with exactly one reaching definition
+    that is a plain assignment `name = <expr>`, continue with <expr>. Returns (expr, node where
+    it is evaluated). Rules that inspect the *shape* of an argument use this so that
+    `t = g(x); f(t)` and `f(g(x))` are the same thing to them."""
+    while depth > 0 and isinstance(e, ast.Name):
+        try:
+            defs = [d for d, sfx in fl.rd(e.id, at) if not sfx]
+        except Exception:
+            break
+        if len(defs) != 1 or defs[0].kind != "assign" or not isinstance(getattr(defs[0], "value", None), ast.AST):
+            break
+        d = defs[0]
+        if getattr(d, "index", ()) not in ((), None):
+            break
+        e, at = d.value, d.at
+        depth -= 1
+    return e, at
